@@ -104,3 +104,7 @@ mod state;
 mod storage;
 mod telemetry;
 mod writer;
+
+#[cfg(metrics_verif)]
+#[doc(hidden)]
+pub mod verif_driver;
